@@ -462,6 +462,52 @@ Proof.
   apply add_each_ok; [|exact Hms]. intros e0 Hin. now apply lstat_found.
 Qed.
 
+(* ------------------------------------------------------------------ round 6: a wildcard src= below the build root *)
+Lemma add_each_src_ok t e chop : (forall e0, In e0 t -> lstat t (te_path e0) = LFound e0) ->
+  forall ms, (forall m, In m ms -> exists e0, In e0 t /\ te_path e0 = m) ->
+  forall l, exists l', add_each_src t l e chop ms = AOk l' /\
+    forall x, In x (names l') <->
+              (In x (names l) \/ In x (map (fun m => clean (e_name e ++ c_slash :: skipn chop m)) ms)).
+Proof.
+  intros Hls. induction ms as [|m r IH]; intros Hms l.
+  - exists l. split; [reflexivity|]. intros x. cbn [map In]. tauto.
+  - cbn [add_each_src].
+    destruct (Hms m (or_introl eq_refl)) as (e0 & Hin & Hp).
+    assert (Hl : lstat t m = LFound e0) by (rewrite <- Hp; auto).
+    unfold add_from_source. rewrite Hl.
+    match goal with |- context [fl_set l ?le] => set (le0 := le) end.
+    destruct (IH (fun m' Hm' => Hms m' (or_intror Hm')) (fl_set l le0)) as (l' & -> & Hl').
+    exists l'. split; [reflexivity|]. intros x. rewrite Hl', fl_set_names. cbn [le0 l_name map In].
+    intuition congruence.
+Qed.
+
+(* `dir|file|node <name> src=$$stageroot/<dir>/<pattern>`: exactly the matches of the pattern in the
+   source directory (for type dir: with everything below them) become members, each under <name> at its
+   path RELATIVE to the source directory; nothing else changes *)
+Theorem wildcard_src : forall t l e tail ms, tree_ok t = true ->
+  stageroot_tail (e_source e) = Some tail ->
+  existsb (fun c => Ascii.eqb c c_bsl) (fst (pathsplit (clean tail))) = false ->
+  glob t tail = GOk ms ->
+  let ms' := if e_ltype e =? V_FileType_dir then expand t ms else ms in
+  let d := clean (fst (pathsplit (clean tail))) in
+  let chop := if beq d [c_slash] then O else length d in
+  ms' <> [] ->
+  exists l', add_src_wild t l e = AOk l' /\
+    forall x, In x (names l') <->
+              (In x (names l) \/ exists m, In m ms' /\ x = clean (e_name e ++ c_slash :: skipn chop m)).
+Proof.
+  intros t l e tail ms Hok Hs Hb Hg ms' d chop Hne.
+  assert (Hms : forall m, In m ms' -> exists e0, In e0 t /\ te_path e0 = m).
+  { subst ms'. destruct (e_ltype e =? V_FileType_dir).
+    - apply expand_members. eapply glob_members; eauto.
+    - eapply glob_members; eauto. }
+  unfold add_src_wild. rewrite Hs. cbv zeta. rewrite Hb, Hg. fold ms'. fold d. fold chop.
+  destruct ms' as [|m0 r0] eqn:E; [congruence|]. rewrite <- E in *.
+  destruct (add_each_src_ok t e chop (fun e0 Hin => lstat_found t e0 Hok Hin) ms' Hms l) as (l' & Hl' & Hn).
+  exists l'. split; [exact Hl'|]. intros x. rewrite Hn, in_map_iff.
+  split; (intros [H|(m & H1 & H2)]; [now left|right; exists m; split; auto]).
+Qed.
+
 Print Assumptions gmatch_spec.
 Print Assumptions fl_del_names.
 Print Assumptions fl_set_names.
@@ -471,3 +517,4 @@ Print Assumptions expand_members.
 Print Assumptions pmatch_spec.
 Print Assumptions wildcard_omit.
 Print Assumptions wildcard_add.
+Print Assumptions wildcard_src.
